@@ -29,10 +29,12 @@ const (
 
 // caseInput is everything needed to re-run one case (replay file).
 type caseInput struct {
-	Salt    uint64   `json:"salt"`
-	Base    *Op      `json:"base"`
-	Reforms []Reform `json:"reforms"`
-	Key     string   `json:"key,omitempty"` // the finding key this case was shrunk for
+	Salt    uint64     `json:"salt"`
+	Base    *Op        `json:"base"`
+	Reforms []Reform   `json:"reforms"`
+	History []int      `json:"history,omitempty"` // sequential Loads on one instance (indices into variantNames)
+	Inter   *interCase `json:"inter,omitempty"`   // two interleaved Loads on one instance
+	Key     string     `json:"key,omitempty"`     // the finding key this case was shrunk for
 }
 
 type evaluated struct {
@@ -62,6 +64,7 @@ func coarse(where string) string {
 }
 
 type checker struct {
+	t    *testing.T
 	run  *vk.Run
 	e    *env
 	g    *gen
@@ -678,19 +681,28 @@ func (c *checker) features(op *Op) string {
 }
 
 func (c *checker) classOfCase(in caseInput) string {
-	return rootKind(in.Base) + "; " + reformKinds(in.Reforms) + "; " + c.features(in.Base)
+	return rootKind(in.Base) + "; " + caseLabel(in) + "; " + c.features(in.Base)
 }
 
 // report shrinks (unless this pre-class is already settled), classifies and records.
 func (c *checker) report(in caseInput, f finding) {
-	pre := f.key() + " || " + rootKind(in.Base) + " || " + reformKinds(in.Reforms) + " || " + c.features(in.Base)
+	pre := f.key() + " || " + rootKind(in.Base) + " || " + caseLabel(in) + " || " + c.features(in.Base)
 	if fps := c.shrinkCache[pre]; len(fps) >= 2 && fps[0] == fps[1] {
 		parts := strings.SplitN(fps[0], "\x00", 3)
 		c.run.Violate(vk.Violation{Clause: parts[0], Site: parts[1], Class: parts[2], Detail: f.Detail, Input: in})
 		c.run.Count("violations_attributed_without_shrinking", 1)
 		return
 	}
-	small, sf := c.shrink(in, f)
+	var small caseInput
+	var sf finding
+	switch {
+	case in.Inter != nil:
+		small, sf = c.shrinkInter(in, f)
+	case len(in.History) > 0:
+		small, sf = c.shrinkHistory(in, f)
+	default:
+		small, sf = c.shrink(in, f)
+	}
 	small.Key = f.key()
 	v := vk.Violation{Clause: sf.Clause, Site: sf.Kind + " @ " + coarse(sf.Where), Class: c.classOfCase(small), Detail: sf.Detail, Input: small}
 	c.shrinkCache[pre] = append(c.shrinkCache[pre], v.Clause+"\x00"+v.Site+"\x00"+v.Class)
@@ -848,18 +860,30 @@ func TestCheck(t *testing.T) {
 	type universe struct {
 		salt                         uint64
 		depth, width, size, pairSize int
+		histLen                      int      // longest history of Loads on one instance (0 = none)
+		hist3Size                    int      // histories of 3 Loads only for operations up to this many field nodes (longer ones: 2 Loads)
+		interSize                    int      // interleaved Loads (canonical / other values) for operations up to this many field nodes
+		interAllSize                 int      // ... with every pair of interPairs up to this many field nodes
+		interPairs                   [][2]int // variable assignments of the two interleaved Loads
 	}
 	// quick: one universe, depth<=3 width<=2 size<=4, single reformulations.
 	// thorough: universe 1 with depth<=4 width<=3 size<=5 (+ pairs up to 3 field nodes),
 	// universe 2 (other values, other list lengths / nulls / oneof arms) with the quick bounds.
-	universes := vk.Pick(run, []universe{{1, 3, 2, 4, 0}}, []universe{{1, 4, 3, 5, 3}, {2, 3, 2, 4, 0}})
+	universes := vk.Pick(run,
+		[]universe{{1, 3, 2, 4, 0, 2, 0, 3, 3, [][2]int{{0, 1}}}},
+		[]universe{{1, 4, 3, 5, 3, 3, 4, 4, 3, [][2]int{{0, 1}, {0, 2}, {0, 3}}}, {2, 3, 2, 4, 0, 2, 0, 3, 3, [][2]int{{0, 1}}}})
+	if s := os.Getenv("C20_HIST"); s != "" {
+		for i := range universes {
+			fmt.Sscan(s, &universes[i].histLen)
+		}
+	}
 	if s := os.Getenv("C20_SIZE"); s != "" {
 		for i := range universes {
 			fmt.Sscan(s, &universes[i].size)
 		}
 	}
 	depth, width, size, pairSize := universes[0].depth, universes[0].width, universes[0].size, universes[0].pairSize
-	run.Rule("base operations = every selection tree with depth<=D, <=W items per selection set and <=N field nodes below each root field of the menu (queries, mutations, two-root-field queries, _entities lookups), fields drawn from the first field of every mapping-construct class of each type; for each base operation every single reformulation site (alias, aliased copy, duplicate, reorder, inline fragment / named fragment around every run, drop, add __typename), thorough: also every pair for base operations up to pair_size field nodes, plus a second service universe at the quick bounds; an outcome is distinct when the set of RPC methods invoked or the key/null/list-length skeleton of the answer differs")
+	run.Rule("base operations = every selection tree with depth<=D, <=W items per selection set and <=N field nodes below each root field of the menu (queries, mutations, two-root-field queries, _entities lookups), fields drawn from the first field of every mapping-construct class of each type; for each base operation every single reformulation site (alias, aliased copy, duplicate, reorder, inline fragment / named fragment around every run, drop, add __typename plain and aliased), thorough: also every pair for base operations up to pair_size field nodes, plus a second service universe at the quick bounds; operations with a field resolver also as histories of 2 (thorough 3) Loads on one DataSource instance over four variable assignments and as two interleaved Loads under every order of gated RPC completions, each answer compared with a fresh instance; an outcome is distinct when the set of RPC methods invoked or the key/null/list-length skeleton of the answer differs")
 	run.Assume(
 		"transport is a deterministic service: answer = hash(universe salt, method, request message); result lists aligned with keys/context; absent values only where the GraphQL schema allows null; recursion cut 9 messages deep",
 		"gqlparser's schema loader and validator decide validity of the generated operations and give field types / possible types to the shape checker",
@@ -868,12 +892,20 @@ func TestCheck(t *testing.T) {
 		"entity objects may carry __typename although it was not selected (the router always selects it)",
 		"@requires fields are selected only directly below an _entities fragment (the only place a router plans them); representations carry every external field",
 		"operations the data source refuses at planning time are counted, not judged",
+		"histories are differential: the reference of a Load on a re-used instance is a fresh instance with the same operation and variables; the service makes the root result empty / longer when a root argument carries the marker len0 / len3 (9000 / 9003)",
 	)
 	run.Bound("max_depth", depth)
 	run.Bound("max_width", width)
 	run.Bound("max_field_nodes", size)
 	run.Bound("max_reformulations_per_case", vk.Pick(run, 1, 2))
 	run.Bound("pair_size_max_field_nodes", pairSize)
+	run.Bound("history_max_loads_on_one_instance", universes[0].histLen)
+	run.Bound("history_variable_assignments", variantNames)
+	run.Bound("history_three_loads_max_field_nodes", universes[0].hist3Size)
+	run.Bound("interleaving_max_field_nodes", universes[0].interSize)
+	run.Bound("interleaving_all_assignment_pairs_max_field_nodes", universes[0].interAllSize)
+	run.Bound("interleaving_max_rpc_calls_per_load", maxInterCalls)
+	run.Bound("interleaving_assignment_pairs", len(universes[0].interPairs))
 	run.Bound("universes", len(universes))
 	if len(universes) > 1 {
 		run.Bound("second_universe_bounds", map[string]int{"max_depth": universes[1].depth, "max_width": universes[1].width, "max_field_nodes": universes[1].size})
@@ -892,9 +924,14 @@ func TestCheck(t *testing.T) {
 		if err != nil {
 			t.Fatalf("INFRA: %v", err)
 		}
-		c := &checker{run: run, e: e, g: newGen(e, width), salt: in.Salt, shrinkCache: map[string][]string{}}
-		bev := c.eval(in.Base)
-		fs, _ := c.caseFindings(bev, in.Reforms)
+		c := &checker{t: t, run: run, e: e, g: newGen(e, width), salt: in.Salt, shrinkCache: map[string][]string{}}
+		var fs []finding
+		if in.Inter != nil || len(in.History) > 0 {
+			fs = c.replayStateful(in)
+		} else {
+			bev := c.eval(in.Base)
+			fs, _ = c.caseFindings(bev, in.Reforms)
+		}
 		for _, f := range fs {
 			if in.Key != "" && f.key() != in.Key {
 				continue
@@ -913,7 +950,7 @@ func TestCheck(t *testing.T) {
 		if err != nil {
 			t.Fatalf("INFRA: %v", err)
 		}
-		c := &checker{run: run, e: e, g: newGen(e, width), salt: salt, shrinkCache: map[string][]string{}}
+		c := &checker{t: t, run: run, e: e, g: newGen(e, width), salt: salt, shrinkCache: map[string][]string{}}
 		stop := false
 		n := c.g.forEachBase(depth, size, func(i int, mk func() *Op) bool {
 			my := run.Mine(idx)
@@ -927,6 +964,20 @@ func TestCheck(t *testing.T) {
 			}
 			base := mk()
 			c.exploreBase(base, pairSize > 0 && base.fieldCount() <= pairSize)
+			// one instance, several Loads: operations with a field resolver (the calls that read per-request state)
+			if u.histLen > 0 && hasResolver(c.features(base)) && c.e.validate(base) == nil {
+				hl := u.histLen
+				if hl > 2 && base.fieldCount() > u.hist3Size {
+					hl = 2
+				}
+				c.exploreHistories(base, hl)
+				switch n := base.fieldCount(); {
+				case n <= u.interAllSize:
+					c.exploreInterleavings(base, u.interPairs)
+				case n <= u.interSize:
+					c.exploreInterleavings(base, u.interPairs[:1])
+				}
+			}
 			return true
 		})
 		total += n
